@@ -791,6 +791,9 @@ int main() {
   REG("upi", std::unique_ptr<int32_t>)
   REG("ups", std::unique_ptr<std::string>)
   REG("spin", std::shared_ptr<Inner>)
+  REG("spi64", std::shared_ptr<int64_t>)
+  REG("sps", std::shared_ptr<std::string>)
+  REG("upin", std::unique_ptr<Inner>)
   REG("vupi", std::vector<std::unique_ptr<int32_t>>)
   REG("vups", std::vector<std::unique_ptr<std::string>>)
   REG("inner", Inner)
